@@ -3,8 +3,9 @@ from hypothesis import strategies as st
 
 from vf.harness import buffer as H
 from vf.props import buffer_common as B
-from vf.runner import Result
+from vf.runner import Result, V
 from vf.sim.kernel import HarnessError
+from vf.sim.world import thread_exc_violations
 
 ID = 'C07'
 LEVEL = 'exploration'
@@ -35,9 +36,10 @@ def strategy(tier):
 def run_case(case):
     hist = H.run(case)
     sd = case.get('shutdown')
-    if hist['thread_excs'] and sd is None:
-        raise HarnessError('thread exception in buffer harness: %r' % hist['thread_excs'])
-    viol = B.judge_barrier(case, hist)
+    died, harness = thread_exc_violations(hist['thread_excs'], V)
+    if harness and sd is None:
+        raise HarnessError('thread exception in buffer harness: %r' % harness)
+    viol = B.judge_barrier(case, hist) + (died if sd is None else [])
     cl = ['sched=' + case['sched']['mode']]
     busy_wait = False
     for w in hist['waits']:
